@@ -179,6 +179,7 @@ impl TCheck for C06T {
             }),
             record_events: false,
             hard_fault: false,
+            one_cpu: false,
         }
     }
     fn rule(&self) -> String {
